@@ -5,7 +5,10 @@ use crate::engine::Ctx;
 pub mod common;
 pub mod c01;
 pub mod c02;
+pub mod c06;
+pub mod c07;
 pub mod c10;
+pub mod c14;
 
 pub struct PropDef {
     pub id: &'static str,
@@ -19,4 +22,4 @@ pub struct PropDef {
     pub needs_refnoise: bool,
 }
 
-pub const ALL: &[PropDef] = &[c01::DEF, c02::DEF, c10::DEF];
+pub const ALL: &[PropDef] = &[c01::DEF, c02::DEF, c06::DEF, c07::DEF, c10::DEF, c14::DEF];
